@@ -11,9 +11,11 @@ Download side:
     (induction over the D/E nesting: a callee works below the path it is given - its own contract);
   * recursive SFTP get/copy (sftp.py): in _copy every file-system operation is on the destination it was given and
     the recursion goes to a DIRECT CHILD of it for every name a remote scandir reply can contain; SFTPGlob only
-    reports the listed directory or direct children of it for names taken from a reply; _begin_copy places every
-    source at the named destination or at an entry of it (basename / compose_path of both file-system classes are
-    under contract).
+    reports the listed directory or direct children of it for names taken from a reply, and the whole matcher
+    (match / _match / _match_exact / _match_pattern) keeps the invariant "a reported path ends in '..' only if the
+    caller's pattern has a '..' component"; _begin_copy assumes exactly that invariant of its source names and
+    places every source at the named destination or at a DIRECT CHILD of it unless the caller wrote '..' himself
+    (basename / compose_path of both file-system classes are under contract).
 Obligations about names are stated at the call sites that consume them (`pre-at-call`), for arbitrary byte strings.
 """
 import z3
@@ -464,11 +466,99 @@ copy = Spec(
 copy.no_replay = True        # SFTPClient.version / supports_remote_copy are read-only properties of a live session
 
 
-# SFTPGlob: the names matched against a wildcard come from the remote scandir reply.  Every path the matcher
-# reports or descends into is the directory being listed or an ENTRY of it - so the final component of a glob
-# result that stems from a reply is a child name, and _begin_copy's basename()/compose_path() place it directly
-# under the caller's destination.  (Literal parts of the caller's own pattern are not constrained: a user who
-# asks for 'dir/..' gets what was asked.)
+# SFTPGlob.  The names matched against a wildcard come from the remote scandir reply.
+#  (1) _match_pattern: every path it reports or descends into is the directory being listed or a DIRECT CHILD of it,
+#      for every name a reply can contain.
+#  (2) hand-off to _begin_copy, carried through the whole matcher as the invariant R: a path that is reported (or
+#      descended into) ends in a '..' component only if the caller's own pattern contains a '..' component
+#      (`ghost_asked` is the pattern given to match(); nobody writes it).  R is required on entry of _match /
+#      _match_exact / _match_pattern and proved at every call site of _match, _match_exact, _match_pattern and
+#      _report_match (`pre-at-call ... keeps-dotdot-out`); match() establishes it from _split's (assumed, bounded-
+#      checked) contract.  _report_match appends exactly SFTPName(path, ...) and is the only writer of the result
+#      list (AST scan `glob-result-list`), so every name match() returns satisfies R - which is the invariant
+#      _begin_copy assumes for the SFTPName records it composes destinations from (see below).
+
+PAT = sort_of('opaque:Pat')
+pat_is_list = z3.Function('isinstance_Pat_list', PAT, BoolS)        # the engine's name for isinstance(x, list)
+pat_items = z3.Function('pat_items', PAT, z3.SeqSort(BytesS))       # the literal components of a list entry
+
+
+def ends_dotdot(p):
+    """the final component of p is '..'"""
+    return z3.Or(p == Z.lit(b'..'), z3.SuffixOf(Z.lit(b'/..'), p))
+
+
+def asked_dotdot(asked):
+    """the caller's own pattern / path contains a '..' component"""
+    return P.has_comp(Z, asked, b'..')
+
+
+def keeps_dotdot_out(asked, p):
+    return z3.Implies(ends_dotdot(p), asked_dotdot(asked))
+
+
+# "all elements are fine" over the two kinds of lists the matcher walks, as recursive spec predicates: uninterpreted
+# functions plus the unfolding instances the code needs (head / tail of the pattern list, last literal component) -
+# definitional instances of total recursive definitions (cf. specs/streams.py).
+_items_ok = z3.Function('glob_items_ok', BytesS, z3.SeqSort(BytesS), BoolS)
+_patlist_ok = z3.Function('glob_patlist_ok', BytesS, z3.SeqSort(PAT), BoolS)
+
+
+def item_ok(asked, e):
+    """a literal pattern component: separator free, and '..' only if the caller wrote it"""
+    return z3.And(z3.Not(z3.Contains(e, Z.lit(b'/'))), z3.Implies(e == Z.lit(b'..'), asked_dotdot(asked)))
+
+
+def lits_ok(asked, items):
+    """a run of literal pattern components: non-empty, every one item_ok"""
+    return _items_ok(asked, items)
+
+
+def lits_unfold_last(asked, items):
+    n = z3.Length(items)
+    return z3.Implies(_items_ok(asked, items), z3.And(n >= 1, item_ok(asked, items[n - 1])))
+
+
+def pat_ok(asked, x):
+    return z3.Implies(pat_is_list(x), lits_ok(asked, pat_items(x)))
+
+
+def patlist_ok(asked, pl):
+    """every list entry of the pattern list is a run of literal components (lits_ok)"""
+    return _patlist_ok(asked, pl)
+
+
+def patlist_unfold(asked, pl):
+    n = z3.Length(pl)
+    return z3.Implies(z3.And(_patlist_ok(asked, pl), n >= 1),
+                      z3.And(pat_ok(asked, pl[0]), _patlist_ok(asked, z3.Extract(pl, z3.IntVal(1), n - 1))))
+
+
+def asked_of(cx):
+    return cx.selff('ghost_asked').z
+
+
+def glob_call(what, path_idx, same_path=False, child_of_path=False, patlist_idx=None, lits_idx=None,
+              nonempty_patlist=False, raises=IOERR):
+    """stub of a matcher-internal call: the obligations its callee relies on, stated at the call site"""
+    def stub(cx):
+        asked, a = asked_of(cx), cx.args[path_idx].z
+        if same_path or child_of_path:
+            d = dest_of(cx, 'path')
+            cx.require(f'{what}-path-is-the-directory' + ('' if same_path else '-or-a-direct-child'),
+                       a == d if same_path else z3.Or(a == d, P.direct_child(Z, d, a)))
+        cx.require(f'{what}-keeps-dotdot-out', keeps_dotdot_out(asked, a))
+        if patlist_idx is not None:
+            pl = cx.args[patlist_idx].z
+            cx.require(f'{what}-pattern-list-well-formed', patlist_ok(asked, pl))
+            if nonempty_patlist:
+                cx.require(f'{what}-pattern-list-non-empty', z3.Length(pl) >= 1)
+        if lits_idx is not None:
+            cx.require(f'{what}-literal-components', lits_ok(asked, pat_items(cx.args[lits_idx].z)))
+        matched = cx.fresh('bool', 'matched')
+        return [Out(sets={'_matched': matched}, event=(what, tuple(cx.args)))] + [Out(exc=VExc(e)) for e in raises]
+    stub.modifies = ('_matched',)
+    return stub
 
 
 def remote_names_stub(cx):
@@ -478,22 +568,86 @@ def remote_names_stub(cx):
 
 remote_names_stub.modifies = ()
 
+GLOB = dict(CLIENT, SFTPGlob={'ghost_asked': 'bytes', '_matched': 'bool', '_new_matches': 'any'})
+
+
+def glob_requires(c):
+    """invariant R on the directory path, a well-formed non-empty pattern list (+ its head/tail unfolding)"""
+    asked, pl = c.old('ghost_asked'), c.arg('patlist')
+    return z3.And(keeps_dotdot_out(asked, c.arg('path')), patlist_ok(asked, pl), z3.Length(pl) >= 1,
+                  patlist_unfold(asked, pl))
+
+
 match_pattern = Spec(
     'C13', 'sftp', 'SFTPGlob._match_pattern', self_class='SFTPGlob',
     params=dict(path='bytes', attrs='obj:SFTPAttrs', pattern='bytes', patlist='seq[opaque:Pat]'),
-    classes=dict(CLIENT, SFTPGlob={}), local_types={'attrs': 'obj:SFTPAttrs'},
+    classes=GLOB, local_types={'attrs': 'obj:SFTPAttrs'},
+    requires=glob_requires,
     stubs={'self._scandir': remote_names_stub, 'fnmatch': ret('bool', 'fnmatch'),
-           'self._match': touches('match', 0, raises=IOERR, param='path'),
-           'self._report_match': touches('report_match', 0, raises=(), param='path')},
-    loops={1: LoopSpec(invariant=lambda c: z3.BoolVal(True))},
+           'self._match': glob_call('match', 0, child_of_path=True, patlist_idx=2, nonempty_patlist=True),
+           'self._report_match': glob_call('report_match', 0, child_of_path=True, raises=())},
+    loops={1: LoopSpec(invariant=lambda c: z3.BoolVal(True), modifies=['_matched'])},
     raises={'SFTPError': True, 'OSError': True},
     trusted=P.TRUSTED)
 match_pattern.no_replay = True      # async generator collaborators (self._scandir) are not scripted by the harness
 
+glob_match = Spec(
+    'C13', 'sftp', 'SFTPGlob._match', self_class='SFTPGlob',
+    params=dict(path='bytes', attrs='obj:SFTPAttrs', patlist='seq[opaque:Pat]'), classes=GLOB,
+    requires=glob_requires,
+    stubs={'self._match_exact': glob_call('match_exact', 0, same_path=True, patlist_idx=2, lits_idx=1,
+                                          nonempty_patlist=True),
+           'self._match_pattern': glob_call('match_pattern', 0, same_path=True, patlist_idx=3,
+                                            nonempty_patlist=True)},
+    raises={'SFTPError': True, 'OSError': True}, trusted=P.TRUSTED)
+glob_match.no_replay = True
+
+match_exact = Spec(
+    'C13', 'sftp', 'SFTPGlob._match_exact', self_class='SFTPGlob',
+    params=dict(path='bytes', pattern='seq[bytes]', patlist='seq[opaque:Pat]'), classes=GLOB,
+    requires=lambda c: z3.And(glob_requires(c), lits_ok(c.old('ghost_asked'), c.arg('pattern')),
+                              lits_unfold_last(c.old('ghost_asked'), c.arg('pattern'))),
+    stubs={'self._stat': may_raise(ret('opt[obj:SFTPAttrs]', 'stat'), *IOERR),
+           'self._match': glob_call('match', 0, patlist_idx=2, nonempty_patlist=True),
+           'self._report_match': glob_call('report_match', 0, raises=())},
+    raises={'SFTPError': True, 'OSError': True}, trusted=P.TRUSTED)
+match_exact.no_replay = True
+
+
+def split_stub(cx):
+    """SFTPGlob._split(pattern) -> (path, patlist): assumed contract (compared with the real function for every
+    pattern over {'/', '.', 'a', '*'} up to length 7 in extra_checks): the exact prefix `path` ends in '..' only if
+    the pattern has a '..' component; the literal runs of patlist are non-empty lists of separator-free components
+    of the pattern; without wildcard the pattern is returned unchanged"""
+    pat = cx.args[0].z
+    path, pl = cx.fresh('bytes', 'split_path'), cx.fresh('seq[opaque:Pat]', 'split_patlist')
+    return [Out(ret=VTuple([path, pl]),
+                assume=[keeps_dotdot_out(pat, path.z), patlist_ok(pat, pl.z),
+                        z3.Implies(z3.Length(pl.z) == 0, path.z == pat)])]
+
+
+split_stub.modifies = ()
+
+glob_top = Spec(
+    'C13', 'sftp', 'SFTPGlob.match', self_class='SFTPGlob',
+    params=dict(pattern='bytes', error_handler='opt[opaque:Handler]', sftp_version='int'), classes=GLOB,
+    requires=lambda c: c.old('ghost_asked') == c.arg('pattern'),
+    stubs={'self._split': split_stub, 'self._stat': may_raise(ret('opt[obj:SFTPAttrs]', 'stat'), *IOERR),
+           'self._match': glob_call('match', 0, patlist_idx=2, nonempty_patlist=True),
+           'self._report_match': glob_call('report_match', 0, raises=()),
+           'exc': exc_class_call_stub, 'setattr': noop(), 'error_handler': noop()},
+    raises={'SFTPError': True, 'OSError': True},
+    trusted=P.TRUSTED + ['assumed contract SFTPGlob._split (bounded check against the real function)'])
+glob_top.no_replay = True
+
 
 # _begin_copy: where the top-level destination of each source is composed.  The file-system protocol methods it
 # uses (basename / compose_path of LocalFS and SFTPClient - the two implementations of _SFTPFSProtocol) are under
-# contract themselves; _begin_copy's final loop is verified against those contracts.
+# contract themselves; _begin_copy's final loop is verified against those contracts.  The SFTPName records it walks
+# carry the invariant srcname_inv (established by both producers: caller-supplied paths, and SFTPGlob.match through
+# the matcher's invariant R), and the obligation at the self._copy call is: the destination is the named one or a
+# DIRECT CHILD of it, unless the caller himself wrote a '..' component in a source path (ghost_dd := some caller-
+# supplied source path / pattern has a '..' component).
 
 def entry_of(d, p):
     """p names an entry of directory d: d's child prefix followed by a name without separator"""
@@ -506,14 +660,14 @@ def basename_post(c):
 
 
 def compose_post(c, parent, given_only=False):
-    """composing a separator-free name under a directory yields an entry of that directory; without a directory the
-    name is returned as it is.  given_only: say nothing about parent=None (the two implementations differ there:
+    """composing a separator-free name under a directory yields that directory's child prefix followed by the name
+    (so an entry of the directory); without a directory the name is returned as it is.  given_only: say nothing about parent=None (the two implementations differ there:
     SFTPClient falls back to its remote working directory)"""
     name = c.arg('path')
     nosep = z3.Not(z3.Contains(name, Z.lit(b'/')))
     empty = z3.And(z3.Not(parent.isnone), z3.Length(parent.val.z) == 0)
-    return z3.And(z3.Implies(z3.And(z3.Not(parent.isnone), z3.Length(parent.val.z) > 0, nosep),
-                             entry_of(parent.val.z, c.result)),
+    composed = z3.Or([z3.And(g, c.result == z3.Concat(pref, name)) for g, pref in P.dir_prefix_cases(Z, parent.val.z)])
+    return z3.And(z3.Implies(z3.And(z3.Not(parent.isnone), z3.Length(parent.val.z) > 0, nosep), composed),
                   z3.Implies(empty if given_only else z3.Or(parent.isnone, empty), c.result == name))
 
 
@@ -562,10 +716,20 @@ def as_opt(v):
     return VOpt(z3.BoolVal(False), v)
 
 
+def srcname_inv(ex, st, ref):
+    """invariant of the SFTPName records _begin_copy composes destinations from: the source path ends in a '..'
+    component only if the caller wrote a '..' component in one of the source paths / patterns (ghost_dd).
+    Writers: (a) SFTPName(srcpath) for a caller-supplied path - ends_dotdot(p) => p has a '..' component, lemma
+    `ends-dotdot-implies-dotdot-component`; (b) the results of SFTPGlob.match(pattern) - invariant R of the matcher."""
+    return z3.Implies(ends_dotdot(ex.get_field(st, ref, 'filename').z), ex.get_field(st, ex.self_ref, 'ghost_dd').z)
+
+
 def begin_copy_setup(ex, st):
-    """state at the final loop of _begin_copy: the source names (caller-supplied paths, or glob results whose
-    reply-derived components are child names by SFTPGlob._match_pattern's contract) and the destination test"""
-    st.env['srcnames'] = ex.fresh(st, 'seq[obj:SFTPName]', 'srcnames')
+    """state at the final loop of _begin_copy: the source names (caller-supplied paths or glob results, each
+    satisfying srcname_inv) and the destination test"""
+    v = ex.fresh(st, 'seq[obj:SFTPName]', 'srcnames')
+    v.elem_inv = srcname_inv
+    st.env['srcnames'] = v
     st.env['dst_isdir'] = ex.fresh(st, 'bool', 'dst_isdir')
 
 
@@ -579,12 +743,18 @@ def begin_copy_region(fn):
 
 def top_copy_stub(cx):
     """self._copy(srcfs, dstfs, srcfile, dstfile, ...) from _begin_copy: the destination handed down is the one the
-    caller named, or an entry (a name without separator) of it when it is a directory"""
+    caller named or - when that is a directory - a DIRECT CHILD of it (with no destination: a child name of the
+    working directory).  The only way to anything else is a '..' component the caller wrote in a source path
+    himself (ghost_dd), and even then it is an entry (separator-free name) of the named directory."""
     d = cx.ex.entry_state.env['dstpath']
     p = cx.args[3].z
-    ok = z3.Or(z3.And(d.isnone, z3.Not(z3.Contains(p, Z.lit(b'/')))),
-               z3.And(z3.Not(d.isnone), z3.Or(p == d.val.z, entry_of(d.val.z, p))))
-    cx.require('top-level-destination-is-the-named-one-or-an-entry-of-it', ok)
+    dd = cx.selff('ghost_dd').z
+    strict = z3.Or(z3.And(d.isnone, P.child_name(Z, p)),
+                   z3.And(z3.Not(d.isnone), z3.Or(p == d.val.z, P.direct_child(Z, d.val.z, p))))
+    entry = z3.Or(z3.And(d.isnone, z3.Not(z3.Contains(p, Z.lit(b'/')))),
+                  z3.And(z3.Not(d.isnone), z3.Or(p == d.val.z, entry_of(d.val.z, p))))
+    cx.require('top-level-destination-is-the-named-one-or-a-direct-child-unless-the-caller-wrote-dotdot',
+               z3.And(entry, z3.Or(strict, dd)))
     return [Out(event=('copy', tuple(cx.args)))] + [Out(exc=VExc(e)) for e in IOERR]
 
 
@@ -596,7 +766,7 @@ _bc_params = dict(srcfs='obj:FS', dstfs='obj:FS', srcpaths='any', dstpath='opt[b
                   error_handler='opt[opaque:Handler]', remote_only='bool')
 begin_copy = Spec(
     'C13', 'sftp', 'SFTPClient._begin_copy', self_class='SFTPClient', params=_bc_params,
-    classes=dict(CLIENT), setup=begin_copy_setup, region=begin_copy_region,
+    classes=dict(CLIENT, SFTPClient={'ghost_dd': 'bool'}), setup=begin_copy_setup, region=begin_copy_region,
     stubs={'srcfs.basename': contract_stub(lambda: fs_basename_callee),
            'dstfs.compose_path': contract_stub(lambda: fs_compose_callee),
            'self._copy': top_copy_stub},
@@ -868,6 +1038,121 @@ def scan_recv_file():
             'detail': problems[:10], 'uses': uses, 'replayed': False}
 
 
+def scan_glob_result_list():
+    """the list SFTPGlob.match returns holds exactly the paths handed to _report_match during that call:
+    _new_matches is reset in match (and __init__), returned by match, and otherwise only touched by the single
+    `self._new_matches.append(SFTPName(path, attrs=attrs))` of _report_match, whose `path` parameter is never
+    rebound; the matcher's internal methods are called from inside SFTPGlob only (so the call-site obligations of
+    the contracts above cover every activation)"""
+    import ast
+    from pyvc import extract
+    mod = extract.get_module('sftp')
+    cls = mod.classes['SFTPGlob']
+    problems, uses = [], []
+    internal = {'_match', '_match_exact', '_match_pattern', '_report_match', '_split'}
+    for meth in cls.body:
+        if not isinstance(meth, (ast.FunctionDef, ast.AsyncFunctionDef)):
+            continue
+        for n in ast.walk(meth):
+            if isinstance(n, ast.Attribute) and n.attr == '_new_matches' and _dotted(n) == 'self._new_matches':
+                uses.append((meth.name, n.lineno))
+        for st in ast.walk(meth):
+            txt = None
+            if isinstance(st, (ast.Assign, ast.AnnAssign)) and '_new_matches' in ast.unparse(st):
+                tgt = st.targets[0] if isinstance(st, ast.Assign) else st.target
+                txt = ast.unparse(st)
+                if not (_dotted(tgt) == 'self._new_matches' and isinstance(st.value, ast.List) and not st.value.elts
+                        and meth.name in ('__init__', 'match')):
+                    problems.append(f'{meth.name} line {st.lineno}: {txt[:80]}')
+            elif isinstance(st, ast.Call) and '_new_matches' in ast.unparse(st.func):
+                ok = (meth.name == '_report_match' and ast.unparse(st) ==
+                      'self._new_matches.append(SFTPName(path, attrs=attrs))')
+                if not ok:
+                    problems.append(f'{meth.name} line {st.lineno}: {ast.unparse(st)[:80]}')
+            elif isinstance(st, ast.Return) and st.value is not None and '_new_matches' in ast.unparse(st.value):
+                if not (meth.name == 'match' and ast.unparse(st.value) == 'self._new_matches'):
+                    problems.append(f'{meth.name} line {st.lineno}: {ast.unparse(st)[:80]}')
+        if meth.name == '_report_match':
+            for n in ast.walk(meth):
+                if isinstance(n, ast.Name) and n.id == 'path' and isinstance(n.ctx, (ast.Store, ast.Del)):
+                    problems.append(f'_report_match line {n.lineno}: path is rebound')
+    # any other mention of _new_matches (aliasing, passing it on) is outside the accepted shapes above
+    accounted = sum(1 for m, _l in uses if m in ('__init__', 'match', '_report_match'))
+    if accounted != len(uses) or len(uses) != 4:
+        problems.append(f'unexpected uses of self._new_matches: {uses}')
+    # internal methods are only called on self inside SFTPGlob
+    for node in ast.walk(mod.tree):
+        if isinstance(node, ast.Call) and isinstance(node.func, ast.Attribute) and node.func.attr in internal:
+            inside = any(node in ast.walk(m) for m in cls.body)
+            recv_glob = isinstance(node.func.value, ast.Name) and node.func.value.id == 'glob'
+            if (not inside and (recv_glob or node.func.attr in ('_match_exact', '_match_pattern', '_report_match'))) \
+                    or (inside and _dotted(node.func.value) != 'self'):
+                problems.append(f'line {node.lineno}: {ast.unparse(node)[:70]} - matcher-internal call from outside')
+    return {'name': 'C13.sftp.SFTPGlob#scan(glob-result-list)', 'verdict': 'refuted' if problems else 'proved',
+            'backend': 'AST scan', 'detail': problems[:10], 'replayed': False}
+
+
+def lemma_ends_dotdot():
+    """ends_dotdot(p) => p has a '..' component, for every byte string p (writer (a) of srcname_inv)"""
+    p = z3.Const('p', BytesS)
+    sol = z3.Solver()
+    sol.set('timeout', 20000)
+    sol.add(ends_dotdot(p), z3.Not(asked_dotdot(p)))
+    r = sol.check()
+    backend = 'z3'
+    verdict = 'proved' if r == z3.unsat else ('refuted' if r == z3.sat else 'unknown')
+    if verdict == 'unknown':
+        from pyvc import solve
+        v2, _why = solve._cvc5(sol.to_smt2())
+        verdict, backend = v2, 'cvc5'
+    return {'name': 'C13.lemma#ends-dotdot-implies-dotdot-component', 'verdict': verdict, 'backend': backend,
+            'reason': 'solver gave no answer' if verdict == 'unknown' else '', 'replayed': False}
+
+
+_SPLIT_CHECK = r'''
+import itertools, json, sys
+from asyncssh.sftp import SFTPGlob
+g = SFTPGlob.__new__(SFTPGlob)
+maxlen = int(sys.argv[1])
+bad, n = [], 0
+for k in range(maxlen + 1):
+    for t in itertools.product(b'/.a*', repeat=k):
+        pat = bytes(t)
+        n += 1
+        path, patlist = g._split(pat)
+        comps = pat.split(b'/')
+        dd = b'..' in comps
+        ok = not (path == b'..' or path.endswith(b'/..')) or dd
+        for e in patlist:
+            if isinstance(e, list):
+                ok = ok and len(e) >= 1 and all(b'/' not in x and (x != b'..' or dd) for x in e)
+            else:
+                ok = ok and isinstance(e, bytes)
+        if not patlist:
+            ok = ok and path == pat
+        if not ok:
+            bad.append(repr((pat, path, patlist)))
+print(json.dumps({'cases': n, 'violations': bad[:5]}))
+'''
+
+
+def validate_split(maxlen):
+    """assumed contract of SFTPGlob._split (split_stub) against the real function, run under the library's python"""
+    import json
+    import subprocess
+    from pyvc import extract
+    import os
+    env = dict(os.environ, PYTHONPATH=extract.REPO)
+    name = f"assumed-contract SFTPGlob._split vs real, all patterns over b'/.a*' up to length {maxlen}"
+    try:
+        pr = subprocess.run(['/venv/bin/python', '-c', _SPLIT_CHECK, str(maxlen)], capture_output=True, text=True,
+                            env=env, timeout=300)
+        res = json.loads(pr.stdout)
+    except Exception as e:          # a harness failure is reported as a failed check, never as a pass
+        return {'name': name, 'cases': 0, 'violations': ['could not run the comparison: ' + repr(e)]}
+    return dict(res, name=name)
+
+
 def extra_checks(tier, seed):
     n = 10 if tier == 'thorough' else 8
     res = P.validate_externals(maxlen=n, join_maxlen=5 if tier == 'thorough' else 4)
@@ -875,4 +1160,5 @@ def extra_checks(tier, seed):
     lem = {'name': 'C13.sftp.SFTPServer#scan(every-path-reaching-the-os-comes-from-map_path)',
            'verdict': 'proved' if sinks and not problems else 'refuted', 'backend': 'AST dataflow scan',
            'detail': problems[:10], 'sinks': [f'{m}@{ln}: {txt}' for m, ln, txt, _ok in sinks], 'replayed': False}
-    return {'bounded': res, 'lemmas': [lem, scan_recv_file()]}
+    res.append(validate_split(8 if tier == 'thorough' else 7))
+    return {'bounded': res, 'lemmas': [lem, scan_recv_file(), scan_glob_result_list(), lemma_ends_dotdot()]}
